@@ -152,6 +152,36 @@ def run(ctx):
         ctx.obligation("corr_model_eq_impl_%d_cases" % len(items), not bad)
         if bad:
             ctx.broken[-1]["detail"] = {"failing_case_count": len(bad), "first": cases[idx[bad[0]]][0], "item": items[bad[0]][:400]}
+    # ---- the order density used by the assembled particle-Gibbs theorem (Proofs/GrammarPG.v: gcden = uniform on the orders that
+    # are compatible with the forest's relation table) against the implementation: exp(log_pdf) on a sampled order, 0 on an
+    # order the sampler never draws
+    from ..trees import coq_nat_list, coq_table, spec_table
+
+    gitems, gidx = [], []
+    for ci in order:
+        spec, dist, log_pdf = cases[ci]
+        pts = spec_points(spec)
+        n = len(pts)
+        if pts != list(range(n)) or n > 5 or len(gitems) >= (60 if ctx.quick else 400):
+            continue
+        tab = coq_table(spec_table(spec, n))
+        drawn = sorted(dist)[ctx.rng.randrange(len(dist))]
+        dens = Fraction(math.exp(log_pdf)).limit_denominator(10**6)
+        it = "qcclose (1#1000000000) (gcden %d %s %s) (%d#%d)%%Q" % (n, nl(drawn), tab, dens.numerator, dens.denominator)
+        never = [o for o in itertools.permutations(range(n)) if o not in dist]
+        if never:
+            it += " && Qc_eq_bool (gcden %d %s %s) 0" % (n, nl(never[ctx.rng.randrange(len(never))]), tab)
+        it += " && Nat.eqb (gcount %d %s) %d" % (n, tab, len(dist))
+        gitems.append(it)
+        gidx.append(ci)
+    ok, bad, detail = coq.coq_eval_bool_cases(ctx, "gcden", "From PV Require Import Model.CaseUtil Proofs.GrammarPG.\nOpen Scope nat_scope.", gitems, shard=20)
+    ctx.extra["coq_order_density_cases"] = len(gitems)
+    if not ok:
+        ctx.broken_tie("C09 order-density correspondence file did not evaluate", detail)
+    else:
+        ctx.obligation("corr_assembly_order_density_eq_impl_%d_trees" % len(gitems), not bad)
+        if bad:
+            ctx.broken[-1]["detail"] = {"failing_case_count": len(bad), "first": cases[gidx[bad[0]]][0], "item": gitems[bad[0]][:400]}
     ctx.assumptions += [
         "numpy shuffle = uniform permutation (enumerated as all n! permutations)",
         "urn model of sentinel shuffle (Model/Perm.v header)",
